@@ -848,6 +848,19 @@ func (s *Sim) MakeResults(proposer int, slash []*lib.DoubleSigner) *lib.Certific
 	}
 }
 
+// MakeResultsVar builds well-formed certificate results that differ from MakeResults (and from each other per tag):
+// the reward is split between the proposer and a tag-derived address.
+func (s *Sim) MakeResultsVar(proposer int, tag string) *lib.CertificateResult {
+	other := crypto.Hash([]byte("results/" + tag))[:20]
+	share := uint64(1 + int(other[0])%40)
+	return &lib.CertificateResult{
+		RewardRecipients: &lib.RewardRecipients{PaymentPercents: []*lib.PaymentPercents{
+			{Address: s.R[proposer].Key.PublicKey().Address().Bytes(), ChainId: ChainID, Percent: 100 - share},
+			{Address: other, ChainId: ChainID, Percent: share}}},
+		SlashRecipients: &lib.SlashRecipients{},
+	}
+}
+
 // ---------------------------------------------------------------------------------------------------------------
 // mock controller
 
